@@ -287,6 +287,7 @@ func (t *FnTrans) call(x *ssa.Call, c *ssa.CallCommon, st *HeapState, reach stri
 
 func (t *FnTrans) unknownCall(x *ssa.Call, name string, st *HeapState) {
 	t.unknownCalls[name]++
+	t.frameCheck("unknown-call:"+name, x.Pos(), t.reach[x.Block()])
 	t.replaceState(st, t.havocAll(st))
 	t.setVal(x, t.havocVal(x.Type(), "unk"))
 }
@@ -366,15 +367,54 @@ func (t *FnTrans) builtin(x *ssa.Call, bi *ssa.Builtin, c *ssa.CallCommon, args 
 	}
 }
 
+// allocRef: a fresh object reference: not nil, distinct from every reference
+// the function has seen so far (parameters, values loaded from memory, call
+// results, earlier allocations).
 func (t *FnTrans) allocRef(hint string) string {
-	t.declare("ALLOC0", "Int")
-	name := t.declare(t.fresh(hint), "Int")
-	t.assume("true", sx(">", name, "ALLOC0"), "fresh allocation")
-	for _, o := range t.localRefs {
-		t.assume("true", not(eq(name, o)), "allocations are distinct")
+	if !t.declSet["ALLOC0"] {
+		t.declare("ALLOC0", "Int")
+		t.assume("true", sx(">", "ALLOC0", "0"), "allocation frontier is above nil")
 	}
+	name := t.declare(t.fresh(hint), "Int")
+	facts := []string{sx(">", name, "ALLOC0")}
+	for _, o := range t.localRefs {
+		facts = append(facts, not(eq(name, o)))
+	}
+	var ks []string
+	for r := range t.knownRefs {
+		ks = append(ks, r)
+	}
+	sortStrings(ks)
+	for _, r := range ks {
+		facts = append(facts, not(eq(name, r)))
+	}
+	t.assume("true", and(facts...), "fresh allocation is distinct from nil and from every reference seen before it")
 	t.localRefs = append(t.localRefs, name)
 	return name
+}
+
+// noteRef records reference-typed values (they exist before any later allocation).
+func (t *FnTrans) noteRef(v Val) {
+	switch v.K {
+	case VScalar:
+		if v.T == nil {
+			return
+		}
+		switch v.T.Underlying().(type) {
+		case *types.Pointer, *types.Map, *types.Chan:
+			if v.S != "0" && !strings.Contains(v.S, " ") {
+				t.knownRefs[v.S] = true
+			}
+		}
+	case VSlice:
+		if s := v.Sub[0].S; s != "0" && !strings.Contains(s, " ") {
+			t.knownRefs[s] = true
+		}
+	case VStruct, VTuple:
+		for _, s := range v.Sub {
+			t.noteRef(s)
+		}
+	}
 }
 
 // append(s, more...): in place when capacity suffices, otherwise a fresh
@@ -622,6 +662,7 @@ func (t *FnTrans) contractCall(x *ssa.Call, callee *ssa.Function, con *Contract,
 	}
 	// frame
 	if !con.Pure {
+		t.frameCheck("call:"+name, x.Pos(), reach)
 		if len(con.Modifies) == 0 {
 			t.replaceState(st, t.havocAll(st))
 			t.note("call to %s: contract has no frame (pure/modifies): whole heap havocked", name)
